@@ -312,6 +312,10 @@ func compareObjects(o, c any, opt cmpOpts) (issues []issue, st cmpStats) {
 	aliasO := map[unsafe.Pointer]string{}
 	aliasC := map[unsafe.Pointer]string{}
 	add := func(class, path, detail string) {
+		if !opt.content && class != "shape-smaller" && hasPrefixAny(path, opt.scratch) {
+			// scratch memory of a used object: lazily filled big.Int / buffers legitimately differ
+			return
+		}
 		issues = append(issues, issue{class, normPath(path), detail})
 	}
 	alias := func(pa, pb unsafe.Pointer, path string) {
